@@ -454,7 +454,7 @@ def run_e2e(ctx, model, e2e_harness, pairs, tag):
         elif rec["status"] == "model":
             ctx.broken.append("e2e: " + rec["why"])
     nskip = hist.get("skip", 0)
-    if nskip * 10 > len(recs):
+    if nskip * 10 > len(recs) and not ctx.violations:
         why = [r_["why"] for r_ in recs if r_["status"] == "skip"][:2]
         ctx.broken.append("e2e: %d of %d generated pairs could not be judged: %r" % (nskip, len(recs), why))
     judged = [r_ for r_ in recs if r_["status"] != "skip"]
